@@ -2,6 +2,8 @@ package search
 
 import (
 	"fmt"
+	"github.com/sourcegraph/zoekt/query"
+	"sort"
 	"testing"
 
 	"github.com/sourcegraph/zoekt"
@@ -40,6 +42,28 @@ func sameRanking(a, b []zoekt.FileMatch) string {
 			return fmt.Sprintf("file %s scored %.17g in one answer and %.17g in another", k, v, w)
 		}
 	}
+	// the scores of the matches inside each file are part of the ranking too
+	matchScores := func(fs []zoekt.FileMatch) map[string]string {
+		m := map[string]string{}
+		for i := range fs {
+			var sc []float64
+			for _, lm := range fs[i].LineMatches {
+				sc = append(sc, lm.Score)
+			}
+			for _, cm := range fs[i].ChunkMatches {
+				sc = append(sc, cm.Score)
+			}
+			sort.Float64s(sc)
+			m[fileKey(&fs[i])] = fmt.Sprintf("%.17g", sc)
+		}
+		return m
+	}
+	la, lb := matchScores(a), matchScores(b)
+	for k, v := range la {
+		if lb[k] != v {
+			return fmt.Sprintf("the matches of file %s scored %s in one answer and %s in another", k, v, lb[k])
+		}
+	}
 	// Positions are not compared across answers: files with equal scores may be
 	// permuted ("up to ties"), and which of several tied files end up in the
 	// first two places decides which extension counts as novel for the single
@@ -61,6 +85,14 @@ func runC29(t *testing.T, tp *simrt.Tape, keepTrace bool) hx.Result {
 	var q = genQuery(tp, corpus, false)
 	if tp.Gen(2) == 0 {
 		q = genContentQ(tp, corpus, 1)
+	}
+	if tp.Gen(4) == 0 {
+		// several terms that occur together on lines, with different frequencies:
+		// term-frequency scoring has to sum over all of them
+		q = &query.Or{Children: []query.Q{
+			&query.Substring{Pattern: sVocab[26], Content: true}, &query.Substring{Pattern: sVocab[28], Content: true},
+			&query.Substring{Pattern: sVocab[29], Content: true}, &query.Substring{Pattern: sVocab[30], Content: true},
+			&query.Substring{Pattern: sVocab[tp.Gen(26)], Content: true}}}
 	}
 	base := zoekt.SearchOptions{ChunkMatches: tp.Gen(2) == 0, NumContextLines: tp.Gen(2), UseBM25Scoring: tp.Gen(2) == 0}
 	nClients := tp.GenRange(2, 4)
